@@ -26,7 +26,7 @@ type c16 struct{}
 func (c16) ID() string { return "C16" }
 func (c16) Runs(tier string) int {
 	if tier == "thorough" {
-		return 40000
+		return 300000
 	}
 	return 1200
 }
